@@ -79,6 +79,10 @@ pub struct World {
     pub profile: Profile,
     /// final phase: sinks always answer ok, streams stay pending (or end, if `end_streams`)
     pub drain: bool,
+    /// final phase, pub/sub engine, one case in three: the first flush asked of a sink during the
+    /// drain fails once (a peer that died while the router was parked) -- everybody else must
+    /// still be flushed
+    pub drain_fail: bool,
     pub end_streams: bool,
     pub calls_in_poll: usize,
     /// data "currently available" is finite: at most this many stream items per poll
@@ -108,6 +112,7 @@ impl World {
             wakers: HashMap::new(),
             profile,
             drain: false,
+            drain_fail: false,
             end_streams: false,
             calls_in_poll: 0,
             items_in_poll: 0,
@@ -146,6 +151,10 @@ impl World {
             return a;
         }
         if self.drain {
+            if self.drain_fail && op == "flush" {
+                self.drain_fail = false;
+                return Ans::Err;
+            }
             return Ans::Ok;
         }
         let p = self.profile;
